@@ -410,3 +410,23 @@ def closure_of(prog, crate, name, root_path):
         return False
     cb = prog.bodies.get((crate, name, -1))
     return cb is not None and cb.path != root_path and hosted_in(prog, cb, root_path)
+
+
+def slots_result_variants(prog, crate="divan"):
+    """What DeferStore::slots() hands back, told apart by payload rather than by name (Result::Ok/Err today; a dedicated
+    two-variant enum is the same thing): {"slots": (variant name, discriminant index), "inputs": (...)} - the variant whose
+    payload is the slice of DeferSlot (inputs and outputs deferred) and the one whose payload is the plain input cells."""
+    sb = prog.body("benchmark::defer::DeferStore::slots", crate)
+    out = {}
+    if sb is None:
+        return out
+    for bi, si, s in sb.stmts():
+        rv = s.get("rv") or {}
+        if s["k"] == "assign" and s["p"]["l"] == 0 and rv.get("k") == "agg" and rv.get("ak") == "adt" and rv.get("ops"):
+            o = rv["ops"][0]
+            ty = (o.get("p") or o.get("c") or {}).get("ty") or ""
+            kind = "slots" if "DeferSlot<" in ty else "inputs"
+            if kind in out and out[kind] != (rv.get("variant"), rv.get("vi")):
+                return {}
+            out[kind] = (rv.get("variant"), rv.get("vi"))
+    return out if set(out) == {"slots", "inputs"} else {}
